@@ -1118,4 +1118,174 @@ theorem mkVariable_wf (hn : NamesOK names) {T : List V} (hT : TypesOK names T) (
 
 end
 
+section
+variable {names : List String} {D : Type}
+
+theorem NoClash_foldl (hn : NamesOK names) {T : List V} (hT : inT names T (kCompose names) = false)
+    (rest : List Slots) (a : Slots) (ha : NoClash names T a) (hr : ∀ b ∈ rest, NoClash names T b) :
+    NoClash names T (rest.foldl (UP names) a) := by
+  induction rest generalizing a with
+  | nil => exact ha
+  | cons b r ih =>
+    exact ih _ (NoClash_UP hn hT (hr b (by simp))) (fun c hc => hr c (by simp [hc]))
+
+theorem name_foldl (hn : NamesOK names) (rest : List Slots) (a : Slots)
+    (ha : ∃ s, getSlot a (kName names) = some (.str s))
+    (hr : ∀ b ∈ rest, ∃ s, getSlot b (kName names) = some (.str s)) :
+    ∃ s, getSlot (rest.foldl (UP names) a) (kName names) = some (.str s) := by
+  induction rest generalizing a with
+  | nil => exact ha
+  | cons b r ih =>
+    obtain ⟨s, hs⟩ := hr b (by simp)
+    exact ih _ ⟨s, UP_own hn a hn.name_ne_compose hs⟩ (fun c hc => hr c (by simp [hc]))
+
+/-- `Compose(v₁, …, vₙ, **kw)` of well-formed, named variables (patched condition): constructed without an
+exception, `var_context` = the fold of `UP` updated by the keywords (without `name`) -/
+theorem mkCompose_ok_kw (hn : NamesOK names) (v1 : Variable D) (rest : List (Variable D)) (kw : Slots)
+    (hv : ∀ v ∈ v1 :: rest, VarWF names v.varCtx ∧ (getSlot v.varCtx (kName names)).isSome = true)
+    (hg : hasKey kw (kGetter names) = false) :
+    mkCompose names true ((v1 :: rest).map some) kw =
+      .ok ⟨chainData (v1 :: rest),
+           dictUpdate ((rest.map Variable.varCtx).foldl (UP names) v1.varCtx) (setSlot kw (kName names) none)⟩ := by
+  have hall : (List.map some (v1 :: rest)).all Option.isSome = true := by simp
+  have hfm : List.filterMap id (List.map some (v1 :: rest)) = v1 :: rest := by
+    simp [List.filterMap_map]
+  have hfold := composeFold_eq hn (fx := true) (rest.map Variable.varCtx) v1.varCtx (hv v1 (by simp)).1
+    (by intro b hb; obtain ⟨w, hw, rfl⟩ := List.mem_map.1 hb; exact (hv w (by simp [hw])).1) (Or.inl rfl)
+  have hlast := hv ((v1 :: rest).getLast (by simp)) (List.getLast_mem _)
+  unfold mkCompose
+  simp only [hall, hfm, Bool.not_true, Bool.false_eq_true, if_false, hfold, hg, nameOf]
+  cases hk : getSlot kw (kName names) with
+  | some x => rfl
+  | none =>
+    simp only []
+    cases hl : getSlot ((v1 :: rest).getLast (by simp)).varCtx (kName names) with
+    | none => rw [hl] at hlast; cases hlast.2
+    | some nm => rfl
+
+/-- **`Compose` of well-formed variables is well-formed** (the class of variables the chain theorems speak
+about is closed under `Compose`, with keyword arguments and with the `name` keyword in either version): its
+history is the concatenation of the histories of its variables -/
+theorem mkComposeK_wf (hn2 : NamesOK2 names) {T : List V} (hT : TypesOK names T) (nk : Bool)
+    (vs : List (Variable D)) (hne : vs ≠ []) (hv : ∀ v ∈ vs, WFCtx names T v.varCtx)
+    (kw : Slots) (hkw : kwOKb names T kw = true) (hnk : nameKwOKb names kw = true) :
+    ∃ c, mkComposeK names true nk (vs.map some) kw = .ok c ∧ c.getter = chainData vs ∧
+      WFCtx names T c.varCtx ∧ hist names c.varCtx = (vs.map Variable.varCtx).flatMap (hist names) := by
+  have hn := hn2.base
+  obtain ⟨hlen, hkt, hkc, hkg, _, hkn⟩ := kwOKb_sound hkw hT
+  cases vs with
+  | nil => exact absurd rfl hne
+  | cons v1 rest =>
+    have hv' : ∀ v ∈ v1 :: rest, VarWF names v.varCtx ∧ (getSlot v.varCtx (kName names)).isSome = true := by
+      intro v hvm
+      obtain ⟨s, hs⟩ := (hv v hvm).name
+      exact ⟨(hv v hvm).wf, by simp [hs]⟩
+    have hmk := mkCompose_ok_kw hn v1 rest kw hv' (by simp [hasKey, hkg])
+    -- the folded context `A` and its properties
+    have hA := VarWF_foldl hn (rest.map Variable.varCtx) v1.varCtx (hv v1 (by simp)).wf
+      (by intro b hb; obtain ⟨w, hw, rfl⟩ := List.mem_map.1 hb; exact (hv w (by simp [hw])).wf)
+    have hAc := NoClash_foldl hn hT.compose (rest.map Variable.varCtx) v1.varCtx (hv v1 (by simp)).noClash
+      (by intro b hb; obtain ⟨w, hw, rfl⟩ := List.mem_map.1 hb; exact (hv w (by simp [hw])).noClash)
+    have hAn := name_foldl hn (rest.map Variable.varCtx) v1.varCtx (hv v1 (by simp)).name
+      (by intro b hb; obtain ⟨w, hw, rfl⟩ := List.mem_map.1 hb; exact (hv w (by simp [hw])).name)
+    have hAh := hist_foldl hn (rest.map Variable.varCtx) v1.varCtx
+    generalize (rest.map Variable.varCtx).foldl (UP names) v1.varCtx = A at *
+    -- the context after `var_context.update(kwargs)`
+    have hkl : (setSlot kw (kName names) none).length = names.length := by
+      rw [length_setSlot _ _ _ (hlen ▸ hn.kName_lt)]; exact hlen
+    have hC : ∀ j, getSlot (dictUpdate A (setSlot kw (kName names) none)) j =
+        if j = kName names then getSlot A j
+        else match getSlot kw j with
+          | some x => some x
+          | none => getSlot A j := by
+      intro j
+      rw [getSlot_dictUpdate, getSlot_setSlot]
+      by_cases hj : j = kName names
+      · simp [hj]
+      · simp only [hj, if_false]
+        cases getSlot kw j <;> rfl
+    have hClen : (dictUpdate A (setSlot kw (kName names) none)).length = names.length := by
+      rw [length_dictUpdate _ _ (hA.len.trans hkl.symm)]; exact hA.len
+    have hCc : getSlot (dictUpdate A (setSlot kw (kName names) none)) (kCompose names) = getSlot A (kCompose names) := by
+      rw [hC, hkc]; simp [Ne.symm hn.name_ne_compose]
+    have hCt : getSlot (dictUpdate A (setSlot kw (kName names) none)) (kType names) = getSlot A (kType names) := by
+      rw [hC, hkt]; simp [Ne.symm hn.name_ne_type]
+    have hCh : hist names (dictUpdate A (setSlot kw (kName names) none)) = hist names A := by
+      unfold hist; rw [hCc, hCt]
+    have hCwf : WFCtx names T (dictUpdate A (setSlot kw (kName names) none)) := by
+      refine ⟨⟨hClen, ?_, ?_⟩, ?_, ?_⟩
+      · intro v hvv; rw [hCc] at hvv; exact hA.compose v hvv
+      · intro v hvv; rw [hCt] at hvv; exact hA.type v hvv
+      · intro j hj hs
+        rw [hCh]
+        rw [hC] at hs
+        by_cases hjn : j = kName names
+        · rw [hjn, hT.name] at hj; cases hj
+        · simp only [hjn, if_false, hkn j hj] at hs
+          exact hAc j hj hs
+      · obtain ⟨s, hs⟩ := hAn
+        exact ⟨s, by rw [hC]; simp [hs]⟩
+    have hflat : hist names A = ((v1 :: rest).map Variable.varCtx).flatMap (hist names) := by
+      rw [hAh]; simp
+    -- with or without the patched `name` keyword
+    unfold mkComposeK
+    by_cases hnkb : nk = true
+    · simp only [hnkb, if_true, mkComposeN, hmk]
+      cases hk : getSlot kw (kName names) with
+      | none => exact ⟨_, rfl, rfl, hCwf, by simp only []; rw [hCh, hflat]⟩
+      | some x =>
+        have hx : ∃ s, x = .str s := by
+          simp only [nameKwOKb, hk] at hnk
+          cases x with
+          | str s => exact ⟨s, rfl⟩
+          | int i => cases hnk
+          | seq b l => cases hnk
+          | dict l => cases hnk
+        obtain ⟨s, rfl⟩ := hx
+        refine ⟨_, rfl, rfl, ?_, ?_⟩
+        · simp only []
+          have hg : ∀ j, getSlot (setSlot (dictUpdate A (setSlot kw (kName names) none)) (kName names) (some (.str s))) j =
+              if j = kName names then some (.str s) else getSlot (dictUpdate A (setSlot kw (kName names) none)) j := by
+            intro j; rw [getSlot_setSlot]
+          have hh : hist names (setSlot (dictUpdate A (setSlot kw (kName names) none)) (kName names) (some (.str s))) =
+              hist names (dictUpdate A (setSlot kw (kName names) none)) := by
+            unfold hist
+            rw [hg, hg]
+            simp [Ne.symm hn.name_ne_compose, Ne.symm hn.name_ne_type]
+          refine ⟨⟨?_, ?_, ?_⟩, ?_, ⟨s, by rw [hg]; simp⟩⟩
+          · rw [length_setSlot _ _ _ (hClen ▸ hn.kName_lt)]; exact hClen
+          · intro v hvv
+            rw [hg] at hvv
+            simp only [Ne.symm hn.name_ne_compose, if_false] at hvv
+            exact hCwf.wf.compose v hvv
+          · intro v hvv
+            rw [hg] at hvv
+            simp only [Ne.symm hn.name_ne_type, if_false] at hvv
+            exact hCwf.wf.type v hvv
+          · intro j hj hs
+            rw [hh]
+            rw [hg] at hs
+            by_cases hjn : j = kName names
+            · rw [hjn, hT.name] at hj; cases hj
+            · simp only [hjn, if_false] at hs
+              exact hCwf.noClash j hj hs
+        · simp only []
+          unfold hist
+          rw [getSlot_setSlot, getSlot_setSlot]
+          simp only [Ne.symm hn.name_ne_compose, Ne.symm hn.name_ne_type, if_false]
+          have := hCh
+          unfold hist at this
+          rw [this]
+          have := hflat
+          unfold hist at this
+          exact this
+    · have hnkf : nk = false := by
+        cases nk
+        · rfl
+        · exact absurd rfl hnkb
+      simp only [hnkf, Bool.false_eq_true, if_false, hmk]
+      exact ⟨_, rfl, rfl, hCwf, by simp only []; rw [hCh, hflat]⟩
+
+end
+
 end Lena.C14
